@@ -176,6 +176,11 @@ def build_regressor(name):
 
 def build_transformer(spec):
     k = spec["kind"]
+    if k == "ttf_t":
+        # a pipeline used as a transformer step (its own final forecaster is never asked)
+        return build({"kind": "ttf", "transformers": spec["transformers"],
+                      "forecaster": {"kind": "naive", "strategy": "last", "sp": 1,
+                                     "window_length": None}})
     if k == "detrend":
         from sktime.transformations.series.detrend import Detrender
         f = build(spec["forecaster"]) if spec.get("forecaster") else None
@@ -282,7 +287,10 @@ def min_train_len(spec, max_fh):
         return base + (max_fh + 1 if k == "stack" else 0)
     if k == "ttf":
         need = min_train_len(spec["forecaster"], max_fh)
+        flat = []
         for t in spec["transformers"]:
+            flat.extend(t["transformers"] if t["kind"] == "ttf_t" else [t])
+        for t in flat:
             while t["kind"] == "optional":
                 t = t["transformer"]
             if t["kind"] in ("deseason", "cdeseason"):
@@ -436,6 +444,8 @@ def gen_forecaster(rng, depth=2, allow_slow=True, kinds=("ensemble", "ttf", "sta
 
 def needs_positive(t):
     k = t["kind"]
+    if k == "ttf_t":
+        return any(needs_positive(x) for x in t["transformers"])
     if k in ("boxcox", "log"):
         return True
     if k in ("deseason", "cdeseason"):
@@ -447,6 +457,8 @@ def needs_positive(t):
 
 def keeps_positive(t):
     k = t["kind"]
+    if k == "ttf_t":
+        return all(keeps_positive(x) for x in t["transformers"])
     if k in ("deseason", "cdeseason"):
         return t.get("model") == "multiplicative"
     if k == "optional":
